@@ -22,7 +22,8 @@ vars == <<ci, L, tree>>
 T == Catalog[ci].t
 
 LMaxMult == CHOOSE m \in LMults : \A k \in LMults : k <= m
-LSet(t) == {MinSize(t) + j * Align(t) : j \in LMults} \cup {MinSize(t) + LMaxMult * Align(t) + 1}
+\* (lengths around the minimum of the type, and around the length in which every variant fits)
+LSet(t) == {MinSize(t) + j * Align(t) : j \in LMults} \cup {MinSize(t) + LMaxMult * Align(t) + 1} \cup {RoomyMin(t), RoomyMin(t) + Align(t) + 1}
 
 BigL == 264
 BigTrees == [n \in 1..5 |-> [items |-> << [reg |-> 0, v |-> [cap |-> 255, items |-> Rep(249 + n, <<7>>)]] >>]]
